@@ -290,7 +290,7 @@ def run_case(ctx, seed, k=0):
 
 def run_shard(ctx):
     base = ctx.seed * 5_000_011 + ctx.shard * 1_000_037
-    for k in range(ctx.n(240, 3000)):
+    for k in range(ctx.n(240, 900)):
         run_case(ctx, base + k, k)
 
 
